@@ -51,16 +51,33 @@ def phCommit : Bytes := [0x7b, 0x63, 0x6f, 0x6d, 0x6d, 0x69, 0x74, 0x7d]
 /-- `format!("{n}")` -/
 def natBytes (n : Nat) : Bytes := (Nat.toDigits 10 n).map fun c => UInt8.ofNat c.toNat
 
-/-- The URL built by `format_osc8_file_hyperlink`: `{path}`, then `{host}` (if the hostname is
-known), then `{line}` are replaced, in this order, each in the result of the previous step. -/
-def fileUrl (fmt path : Bytes) (host : Option Bytes) (line : Option Nat) : Bytes :=
+def lineBytes : Option Nat → Bytes
+  | some n => natBytes n
+  | none => []
+
+/-- The URL of `format_osc8_file_hyperlink` in its original form: `{path}`, then `{host}` (if the
+hostname is known), then `{line}`, each in the result of the previous step. -/
+def fileUrlPathFirst (fmt path : Bytes) (host : Option Bytes) (line : Option Nat) : Bytes :=
   let u := replaceAll fmt phPath path
   let u := match host with
     | some h => replaceAll u phHost h
     | none => u
-  match line with
-  | some n => replaceAll u phLine (natBytes n)
-  | none => replaceAll u phLine []
+  replaceAll u phLine (lineBytes line)
+
+/-- …and in its repaired form: `{host}`, `{line}`, and `{path}` last (a file name may itself contain
+`{host}` or `{line}`). -/
+def fileUrlPathLast (fmt path : Bytes) (host : Option Bytes) (line : Option Nat) : Bytes :=
+  let u := match host with
+    | some h => replaceAll fmt phHost h
+    | none => fmt
+  let u := replaceAll u phLine (lineBytes line)
+  replaceAll u phPath path
+
+/-- The URL built by `format_osc8_file_hyperlink`; which order the source has is read from it on
+every run (`Generated.fileLinkPathLast`). -/
+def fileUrl (fmt path : Bytes) (host : Option Bytes) (line : Option Nat) : Bytes :=
+  if Generated.fileLinkPathLast then fileUrlPathLast fmt path host line
+  else fileUrlPathFirst fmt path host line
 
 /-- `format_osc8_file_hyperlink(absolute_path, line_number, text, config)` -/
 def fileLink (fmt : Bytes) (host : Option Bytes) (absPath : Bytes) (line : Option Nat) (text : Bytes) : Bytes :=
@@ -170,7 +187,7 @@ def formatLineNumber (c : Cfg) (links : Bool) (n : Option Nat) (plusFile : Optio
   | some n, true, some file =>
     match absolutePath c.path file with
     | some p => fileLink c.fileFmt c.host p (some n) (padded n)
-    | none => file
+    | none => if Generated.gutterNumberWithoutAbs then padded n else file
   | some n, _, _ => padded n
 
 /-- src/handlers/commit_meta.rs `_handle_commit_meta_header_line`: the (line, raw_line) pair handed
@@ -204,10 +221,15 @@ def fileChangeDescription (c : Cfg) (links : Bool) (kind : FileChange) (label ar
 def pendingDiffNameLine (c : Cfg) (links : Bool) (label name : Bytes) : Bytes :=
   label ++ linkFile c links name name none
 
+/-- The path `relativize_path_in_diff_stat_line` hands to `absolute_path`: the displayed relative
+path (repaired form) or the path relative to the repository root (`Generated.diffStatLinksRelPath`). -/
+def diffStatLinked (pathInRepo relPath : Bytes) : Bytes :=
+  if Generated.diffStatLinksRelPath then relPath else pathInRepo
+
 /-- src/handlers/diff_stat.rs `relativize_path_in_diff_stat_line`: the padding is computed from
 the *relative path*, not from the formatted one. -/
 def diffStatLine (c : Cfg) (links : Bool) (pathInRepo relPath suffix : Bytes) (alignWidth : Nat) : Bytes :=
-  [0x20] ++ linkFile c links pathInRepo relPath none ++
+  [0x20] ++ linkFile c links (diffStatLinked pathInRepo relPath) relPath none ++
     List.replicate (alignWidth - relPath.length) 0x20 ++ suffix
 
 /-- src/paint.rs `paint_file_path_with_line_number`: `painted` = the ANSIStrings rendering of file
